@@ -172,6 +172,13 @@ V("c09e-tf-polar-unitary-same-side-for-both", "C09", {"rule": "C09e", "contains"
   (TFCONN, "        if side == \"right\":\n            P = self._tf.linalg.sqrtm(adjoint @ matrix)\n            U = matrix @ self._tf.linalg.inv(P)\n        elif side == \"left\":\n            P = self._tf.linalg.sqrtm(matrix @ adjoint)\n            U = self._tf.linalg.inv(P) @ matrix\n", "        gram = adjoint @ matrix if side == \"right\" else matrix @ adjoint\n\n        P = self._tf.linalg.sqrtm(gram)\n        U = matrix @ self._tf.linalg.inv(P)\n"))
 V("c09e-tf-polar-conditional-expressions", "C09", "silent",
   (TFCONN, "        if side == \"right\":\n            P = self._tf.linalg.sqrtm(adjoint @ matrix)\n            U = matrix @ self._tf.linalg.inv(P)\n        elif side == \"left\":\n            P = self._tf.linalg.sqrtm(matrix @ adjoint)\n            U = self._tf.linalg.inv(P) @ matrix\n", "        gram = adjoint @ matrix if side == \"right\" else matrix @ adjoint\n\n        P = self._tf.linalg.sqrtm(gram)\n        U = matrix @ self._tf.linalg.inv(P) if side == \"right\" else self._tf.linalg.inv(P) @ matrix\n"))
+CONFIGPY = "piquasso/api/config.py"
+V("c11a-generator-reseeded-in-place", "C11", {"rule": "C11a", "contains": "re-seeded in place"},
+  (CONFIGPY, "        self.rng = np.random.default_rng(self._seed_sequence)\n        random.seed(self._seed_sequence)",
+   "        rng = np.random.default_rng(self._seed_sequence)\n        if getattr(self, \"rng\", None) is None:\n            self.rng = rng\n        else:\n            self.rng.bit_generator.state = rng.bit_generator.state\n        random.seed(self._seed_sequence)"))
+V("c11a-generator-replaced-through-local", "C11", "silent",
+  (CONFIGPY, "        self.rng = np.random.default_rng(self._seed_sequence)\n        random.seed(self._seed_sequence)",
+   "        new_generator = np.random.default_rng(self._seed_sequence)\n        self.rng = new_generator\n        random.seed(self._seed_sequence)"))
 # ------------------------------------------------------------------------------------------- C20
 V("c20-sub-add", "C20", {"rule": "C20c", "contains": "Sub"}, (EXPR, "ast.Sub: op.sub", "ast.Sub: op.add"))
 V("c20-lt-le", "C20", {"rule": "C20c", "contains": "Lt"}, (EXPR, "ast.Lt: op.lt", "ast.Lt: op.le"))
